@@ -216,25 +216,30 @@ def mk(op, *args, **kw):
     return Op(op, args, kw)
 
 
-def walk(t):
-    """Yield all sub-terms (pre-order)."""
-    yield t
-    if isinstance(t, Op):
-        for a in t.args:
-            yield from _walk_any(a)
-        for _, v in t.kw:
-            yield from _walk_any(v)
+def walk(t, _seen=None):
+    """Yield all sub-terms (pre-order). A term built by an unrolled loop is a DAG: a node that is reached again through another parent
+    (the very same object) is yielded, and descended into, once."""
+    seen = set() if _seen is None else _seen
+    stack = [t]
+    while stack:
+        x = stack.pop()
+        if isinstance(x, Term):
+            if isinstance(x, Op):
+                if id(x) in seen:
+                    continue
+                seen.add(id(x))
+            yield x
+            if isinstance(x, Op):
+                stack.extend(reversed([v for _, v in x.kw]))
+                stack.extend(reversed(x.args))
+        elif isinstance(x, (list, tuple)):
+            stack.extend(reversed(x))
+        elif isinstance(x, slice):
+            stack.extend((x.step, x.stop, x.start))
 
 
 def _walk_any(a):
-    if isinstance(a, Term):
-        yield from walk(a)
-    elif isinstance(a, (list, tuple)):
-        for i in a:
-            yield from _walk_any(i)
-    elif isinstance(a, slice):
-        for i in (a.start, a.stop, a.step):
-            yield from _walk_any(i)
+    yield from walk(a)
 
 
 def syms(t):
